@@ -67,10 +67,18 @@ def step(args):
                 # newcomer is symbolic), so that archive sizes far beyond the fully symbolic bound are reached
                 ind.costs_signed = ([float(i), float(n - i)] + [1.0] * (m - 2))[:m] + [True]
             else:
-                ind.costs_signed = common.sym_costs(ctx, 's%d' % i, m, 'bool')
+                ind.costs_signed = common.sym_costs(ctx, 's%d' % i, m, args.get('marker', 'bool'))
             S.append(ind)
         x = Individual([float(args.get('xdesign', 99)), 0.5])
-        x.costs_signed = common.sym_costs(ctx, 'x', m, 'bool')
+        x.costs_signed = common.sym_costs(ctx, 'x', m, args.get('marker', 'bool'))
+        if args.get('marker') == 'real' and comparator == 'eps':
+            # markers of equal magnitude and opposite sign are 'equally (in)feasible' but not equal as numbers: whether two
+            # such solutions with the same objectives are ONE offered vector or two is not fixed by the property, and the
+            # epsilon comparator (which must name a loser for identical objectives) treats them as one -- excluded
+            for a_ in S + [x]:
+                for b_ in S + [x]:
+                    if a_ is not b_:
+                        ctx.assume(Or(a_.costs_signed[-1] == b_.costs_signed[-1], abs(a_.costs_signed[-1]) != abs(b_.costs_signed[-1])))
         # representation invariant of the pre-state
         for i in range(n):
             for j in range(n):
@@ -249,6 +257,11 @@ def configs(tier):
             for m in (1, 2):
                 add_step(n, m, cmp_, split=24 if n >= 4 else None)
         # members that share a design vector (repeated / noisy evaluations of one design)
+        # real-valued feasibility markers (any sign, equal magnitudes included) instead of the 0/1 markers
+        out.append({'name': 'step-n2-m2-%s-real-markers' % cmp_, 'task': 'step', 'args': {'n': 2, 'm': 2, 'cmp': cmp_, 'marker': 'real'},
+                    'weight': 200, 'split': 32, 'engine': {'validate': 40}})
+        out.append({'name': 'step-n1-m1-%s-real-markers' % cmp_, 'task': 'step', 'args': {'n': 1, 'm': 1, 'cmp': cmp_, 'marker': 'real'},
+                    'weight': 20, 'engine': {'validate': 40}})
         add_step(2, 2, cmp_, designs=[0, 0])
         add_step(3, 2, cmp_, designs=[0, 1, 0], xdesign=1)
         add_step(3, 2, cmp_, designs=[0, 0, 0], xdesign=0)
